@@ -151,7 +151,7 @@ type vUP4Cfg struct {
 
 // vCheckUP4Image compares the target's tables with what the live rules in the
 // agent's session store denote.
-func vCheckUP4Image(sessions []PFCPSession, srv *vP4Server, cfg vUP4Cfg, tag string) {
+func vCheckUP4Image(sessions []PFCPSession, srv *vP4Server, cfg vUP4Cfg, tag string) int {
 	su, sd := srv.decode("sessions_uplink"), srv.decode("sessions_downlink")
 	tu, td := srv.decode("terminations_uplink"), srv.decode("terminations_downlink")
 	apps, peers := srv.decode("applications"), srv.decode("tunnel_peers")
@@ -311,6 +311,7 @@ func vCheckUP4Image(sessions []PFCPSession, srv *vP4Server, cfg vUP4Cfg, tag str
 		}
 	}
 	vAssert(tag+":meter-cells-configured-only-for-live-QERs", configured == liveCells)
+	return liveCells
 }
 
 func vTableID(info *p4ConfigV1.P4Info, alias string) uint32 {
@@ -400,7 +401,10 @@ func H_C04_history() {
 	var fars [2][]vFARSpec
 	seq := uint32(1)
 	check := func(tag string) {
-		vCheckUP4Image(e.pc.store.GetAllSessions(), st.env.srv, st.cfg, tag)
+		liveCells := vCheckUP4Image(e.pc.store.GetAllSessions(), st.env.srv, st.cfg, tag)
+		// every meter cell is either free (in one of the two pools) or configured for a live QER
+		u := st.env.up4
+		vAssert(tag+":meter-cells-free-plus-live-is-the-whole-array", vSetCard(u.appMeterCellIDsPool)+vSetCard(u.sessMeterCellIDsPool)+liveCells == 2*(16-1))
 	}
 	establish := func(k int) bool {
 		p, f, q := vSessionRules(k)
